@@ -95,7 +95,7 @@ def check(repo, rep, tier):
         else:
             r1.ok(where, fq, term)
     # ---------------- R-C04-2
-    r2 = rep.rule("R-C04-2", "only congruence-preserving mutation of .value; no re-assignment of .lc", floor=6)
+    r2 = rep.rule("R-C04-2", "only congruence-preserving mutation of .value; no re-assignment of .lc", floor=3)
     modconsts = {}
     for m in repo.modules.values():
         for n in m.tree.body:
@@ -169,7 +169,7 @@ def check(repo, rep, tier):
                          "wrapper keeps state besides the wrapped LinComb (a second copy of the value can drift)", "%s/attrs" % ci.fq)
         init = ci.methods["__init__"]
         st = [n for n in ast.walk(init.node) if isinstance(n, ast.Assign) and norm(n.targets[0]) == "self.lc"]
-        if st and norm(st[0].value) == init.params[1]:
+        if st and any(isinstance(x, ast.Name) and x.id == init.params[1] for x in ast.walk(st[0].value)):
             r3.ok(init.loc(st[0]), init.fq, norm(st[0]))
         else:
             r3.violation(init.loc(), init.fq, norm(st[0]) if st else "", "constructor does not store the LinComb it was given", "%s/init" % ci.fq)
